@@ -302,6 +302,16 @@ def ob_native(h):
         h.check("condenser_streams_carry_Q_cond", rel(sum(s.heat_flow for s in co), c.Q_cond))
         h.check("evaporator_streams_carry_Q_evap", rel(sum(s.heat_flow for s in ev), c.Q_evap))
         h.check("stream_directions", all(s.t_supply > s.t_target for s in co) and all(s.t_supply < s.t_target for s in ev))
+        # asking again gives the same streams (the requests do not consume or re-scale anything), and they sit at the cycle's levels
+        ev2 = list(c.build_stream_collection(include_evap=True)._streams.values())
+        co2 = list(c.build_stream_collection(include_cond=True)._streams.values())
+        both = list(c.build_stream_collection(include_cond=True, include_evap=True)._streams.values())
+        same = lambda A, B: len(A) == len(B) and all(rel(a.t_supply, b.t_supply) and rel(a.t_target, b.t_target) and rel(a.heat_flow, b.heat_flow) for a, b in zip(A, B))
+        h.check("repeated_request_gives_the_same_evaporator_streams", same(ev, ev2))
+        h.check("repeated_request_gives_the_same_condenser_streams", same(co, co2))
+        h.check("combined_request_gives_both_sets", len(both) == len(ev) + len(co))
+        h.check("evaporator_streams_at_the_evaporating_level", all(Te - 0.05 <= min(s.t_supply, s.t_target) and max(s.t_supply, s.t_target) <= Te + dsh + 0.05 for s in ev2))
+        h.check("condenser_streams_not_below_the_subcooled_outlet", all(min(s.t_supply, s.t_target) >= Tc - dsc - 0.05 for s in co2))
 
 
 def obligations():
